@@ -32,24 +32,5 @@ Proof.
   exists [((7, 9), true); ((8, 1), true)], [((5, 5), false)]. split; [reflexivity|]. vm_compute. congruence.
 Qed.
 
-(* Malformed tables on which the modelled code panics (totality is property C09's subject; listed here because the
-   model says Panic and the implementation was seen to panic on the same patched font):
-   numberOfHMetrics = 0 with a table long enough for numGlyphs side bearings -> Hmtx.Advance indexes Metrics[-1] *)
-Lemma advance_panics_without_long_metric :
-  exists hhea hmtx num_glyphs t,
-    load_hmtx hhea hmtx num_glyphs = Ok t /\ horizontal_advance 1000 t 1 = Panic 2.
-Proof.
-  exists (repeat 0 36), [0; 1; 0; 2], 2. eexists. split; reflexivity.
-Qed.
-
-(* an end point above the last one: getContourPoints indexes points[end] out of range *)
-Lemma contour_points_panic_on_unsorted_end_points :
-  exists src, match parse_glyph src with
-              | Ok (h, GSimple e p) => get_contour_points e p = Panic 4
-              | _ => False
-              end.
-Proof.
-  (* 2 contours, end points [5; 1], no instructions, two on-curve points with zero deltas (flags 0x31) *)
-  exists [0; 2; 0; 0; 0; 0; 0; 0; 0; 0;  0; 5; 0; 1;  0; 0;  49; 49].
-  vm_compute. reflexivity.
-Qed.
+(* The two panics on malformed tables formerly recorded here (Hmtx.Advance without long metrics, getContourPoints with an
+   end point past the points) were repaired in /repo (C09 fixes); the model follows the repaired code. *)
